@@ -294,8 +294,18 @@ def run(rep: Report) -> None:
     shared = [n for st in pmod.tree.body if not isinstance(st, (ast.FunctionDef, ast.ClassDef, ast.AsyncFunctionDef))
               for n in ast.walk(st) if isinstance(n, ast.Call) and ast.unparse(n.func).split(".")[-1] == ci.name]
     n7 = 0
-    for attr, q in sorted(ci.methods.items()):
-        if attr in ("__init__", "__new__") or not shared:
+    # ... and so is any other object of a class of measured.parsing that the module creates once (a wrapper around the parser,
+    # a memo in front of it): its methods run on every parse
+    work7 = [(attr, q) for attr, q in sorted(ci.methods.items()) if shared]
+    for oc, oci in sorted(prog.classes.items()):
+        if oc == ci.name or getattr(oci, "module", None) != "parsing" and rel(oci.path) != rel(pmod.path):
+            continue
+        made = [n for st in pmod.tree.body if not isinstance(st, (ast.FunctionDef, ast.ClassDef, ast.AsyncFunctionDef))
+                for n in ast.walk(st) if isinstance(n, ast.Call) and ast.unparse(n.func).split(".")[-1] == oci.name]
+        if made:
+            work7 += sorted(oci.methods.items())
+    for attr, q in work7:
+        if attr in ("__init__", "__new__"):
             continue
         fi7 = prog.func(q)
         selfname = fi7.params()[0] if fi7.params() else "self"
@@ -319,8 +329,8 @@ def run(rep: Report) -> None:
                 hits.append(n)
         n7 += 1
         rep.check("R17.7", f"{q}:stateless", not hits,
-                  f"{q} stores on the transformer ({ast.unparse(hits[0])[:60] if hits else ''}): the transformer is the single module-level "
-                  f"object created at {rel(pmod.path)}:{shared[0].lineno if shared else 0}, so the state outlives the parse - a rejected text leaves it "
+                  f"{q} stores on its object ({ast.unparse(hits[0])[:60] if hits else ''}): the transformer - like every object measured.parsing creates at module level - is a single "
+                  f"object ({rel(pmod.path)}:{shared[0].lineno if shared else 0}), so the state outlives the parse - a rejected text leaves it "
                   "behind and the next, unrelated parse gives a different result for the same text", fi7.where(hits[0]) if hits else fi7.where())
     if not shared:
         rep.ok("R17.7", "transformer:per-parse", note="no module-level transformer instance")
